@@ -1,7 +1,7 @@
 import json, os
 STYLE = "the break must come from TWO cooperating edits at two different sites (helper and caller, base class and override, producer and consumer of a stored value, a default and the code relying on it); each edit alone leaves the property true"
 info = {
- "C02-8": ("Canonical's default table maps HamiltonianDisplacementMove to CanonicalCriteria; HamiltonianCanonical only spreads Canonical's table", "HamiltonianCanonical with default criteria", "missed as built", "C02 T: default criteria tables resolved per driver × move; Hamiltonian trials need a criterion with the kinetic term"),
+ "C02-8": ("Isobaric.__init__ stores the pressure only when it is truthy; DeformationContext's default pressure becomes 1 bar (a first candidate - default criteria tables of Canonical/HamiltonianCanonical - failed tests/mc/test_canonical.py::test_hamiltonian_canonical on re-confirmation and was discarded; rule C02 T written for it is kept)", "Isobaric/Isotension with pressure=0", "missed as built", "C02 P: a constructor parameter that is stored only under a truth test must fall back on the same value the context holds by default"),
  "C03-8": ("ExchangeContext.revert_state resets only when _added_atoms/_deleted_atoms are non-empty; the composite no longer fills _added_atoms", "rejected composite insertion, then any trial", "caught as built", "C03 U4"),
  "C04-8": ("Context.__init__ adopts calc.results as last_results; validate_simulation adopts results only when last_results is empty", "calculator carrying results of another configuration when the driver is built, first trial rejected", "caught as built", "C04 E1/E2/E3"),
  "C05-8": ("composite records _added_atoms from the last sub-move only; GrandCanonical.save_state skips the notification walk when nothing was recorded", "composite insertion whose last sub-move fails after an earlier one succeeded, accepted", "caught as built", "C05 B1"),
@@ -10,12 +10,15 @@ info = {
  "C08-8": ("same pair of sites as C07-8 (independently found)", "round trip of such a composite", "caught as built", "C08 S4"),
  "C09-8": ("over-commitment sum skips the entry being replaced; add_move renames instead of replacing when the name exists", "add_move twice under one name with minimum counts exceeding the cycles", "caught as built", "C09 M5"),
  "C10-8": ("DisplacementMove stores a boolean mask as _moving_indices; Translation computes the centroid as sum/len(indices)", "translation of a proper subset of the atoms through DisplacementMove", "fired for the wrong reason as built (the sum/len half alone was reported too: false alarm, repaired)", "C10 G3: sum/len(index) centroid accepted iff every producer of _moving_indices hands over integer indices"),
+ "C11-8": ("composite honours a pre-selected target label; register_success records the drawn candidate instead of the displaced label", "composite displacement with to_displace_labels pre-set by the caller", "analysis-error as built (exit 2)", "C11 D4: pre-selected targets modelled - the recorded label must be the one displaced"),
  "C12-8": ("displacement read from a local instead of get_momenta(); positions assigned through atoms.positions", "FixAtoms / FixCom under ForceBias", "caught as built", "C12 K3"),
+ "C13-8": ("min_mass cached in update_masses; the masses_scaling_power setter refreshes shaped_masses without it", "masses_scaling_power changed after construction", "analysis-error as built (exit 2)", "C13 B: cached definitions followed through stored names; every writer of a cache's sources must refresh it"),
  "C14-8": ("maxwell_boltzmann_distribution returns the kinetic energy taken before the forced rescale; the move records the returned value", "distribution with forced=True", "caught as built", "C14 KE"),
  "C15-8": ("start-up guard reduced to `not _startup_done`; Driver.run ends with `_startup_done = step_count == 0`", "ForceBias run(k>0) followed by another run/irun", "missed as built", "C15 O3: writers of the guard's flags outside irun may not re-arm the block (finite evaluation over flag × step-count states)"),
  "C16-8": ("file setter rewinds path-opened restart files; __call__ truncates only `if tell()`", "'a' mode on an existing non-empty restart file", "caught as built", "C16 W4/W5"),
  "C17-8": ("composite+composite branch uses isinstance(other, type(self)); CompositeExchangeMove derives from CompositeDisplacementMove", "(d1+d2)+(e1+e2)", "fired as built, but with a wrong expectation (the subclassing half alone was reported too: false alarm, repaired)", "C17 A2: the specialised composite of an element class is the one its constructor declares (composite_move_type), not only the subscripted base"),
  "C18-8": ("helper returns self.delta uncopied when the mass power is zero; step scales the helper's value in place", "masses_scaling_power = 0 with an array delta (forces scheme)", "missed as built", "C18 R8: no in-place change of a local that may be the stored delta"),
+ "C19-8": ("reinsert_atoms sorts the indices and permutes new_atoms; the masses are read before the permutation", "unsorted deletion indices with differing masses", "analysis-error as built (exit 2)", "C19 R1: permutation terms in the row tracker - every per-row source must carry the same permutation as the indices"),
  "C20-8": ("Isobaric.save_state compares after super().save_state() with an alias of last_cell taken before; DeformationContext refreshes last_cell in place", "Isobaric / Isotension, accepted cell move, a move using on_cell_changed", "C20 silent (C04 E2 fired on the in-place half alone: false alarm, repaired in absim)", "C20 P3 guard: the comparison deciding the notification must see the pre-trial saved cell (alias + in-place refresh = never notified)"),
 }
 for name,(clause,needs,asbuilt,caught) in info.items():
